@@ -366,6 +366,17 @@ def check_state(hist, model, tier):
                 fails.append(f"equality: hash(model) raises TypeError: {str(e)[:80]}")
     except Exception as e:
         fails.append(f"equality: copy/compare raises {type(e).__name__}: {str(e)[:100]}")
+    def twin():
+        """an equal model with freshly built (never hashed) mappings and tuples"""
+        return model.replace(dependent_variables=dict(model.dependent_variables),
+                             observation_transformation=dict(model.observation_transformation),
+                             dataset=model.dataset.copy() if model.dataset is not None else None)
+
+    try:
+        if twin() != model:
+            twin = None
+    except Exception:
+        twin = None
     for label, fn in call_table(model):
         counters["calls"] += 1
         res = None
@@ -415,6 +426,22 @@ def check_state(hist, model, tier):
                 fails.append(f"{label.split('(')[0]}: equality: comparing/hashing the returned model raises {type(e).__name__}: {str(e)[:80]}")
             for w in (wf if wf is not None else []):
                 fails.append(f"{label.split('(')[0]}: returns a model that is not well formed: {w} [call {label[:80]}]")
+            # the same call on an equal model whose components were never hashed (the argument above has been hashed, so
+            # any hash its components cache is in place): equal results must hash equally
+            if twin is not None:
+                try:
+                    with warnings.catch_warnings():
+                        warnings.simplefilter("ignore")
+                        with mgraph.time_limit(20):
+                            res2 = fn(twin())
+                    if isinstance(res2, Model) and res2 == res:
+                        counters["twin_results_compared"] = counters.get("twin_results_compared", 0) + 1
+                        if hash(res2) != hash(res):
+                            fails.append(f"{label.split('(')[0]}: equality: the results for two equal arguments (one hashed before the call, one "
+                                         f"never hashed) are == but hash differently [call {label[:80]}]")
+                except BaseException as e:
+                    if isinstance(e, (KeyboardInterrupt, SystemExit)):
+                        raise
     return fails, counters
 
 
